@@ -123,3 +123,17 @@ Example C03_builtin_forms :
   /\ builtin_minmax true [AStr [97%N]; AInt 1] = Err XType.
 Proof. repeat split. Qed.
 Print Assumptions C03_builtin_forms.
+
+(* MEDIAN over integer values: the values of the group, arranged ascending (a sorted permutation of what was fed), and
+   the middle one (odd count) / the two middle ones when equal, else their mean (even count) *)
+Theorem C03_median (zs : list Z) :
+  zs <> [] ->
+  let s := sort_z zs in
+  let m := Nat.div (length zs) 2 in
+  Permutation s zs /\ StronglySorted Z.le s /\
+  agg_final KMedian (SList (ints zs)) =
+    (if Nat.odd (length zs) then Ok (VA (AInt (nth m s 0%Z)))
+     else if Z.eqb (nth (m - 1)%nat s 0%Z) (nth m s 0%Z) then Ok (VA (AInt (nth (m - 1)%nat s 0%Z)))
+          else Ok (VA (AFlt (Qred ((inject_Z (nth (m - 1)%nat s 0%Z) + inject_Z (nth m s 0%Z)) / 2))))).
+Proof. exact (median_is_middle zs). Qed.
+Print Assumptions C03_median.
